@@ -59,8 +59,8 @@ fn refs_json(p: &Program) -> J {
 
 pub fn drive(seed: u64, n: usize, depth: usize, out: &mut dyn Write) -> usize {
     let mut rng = Rng::new(seed);
-    let var_pool = ["p", "q", "r", "s", "u", "w"];
-    let fn_pool = ["fa", "fb", "size", "int", "t", "h2", "fc"];
+    let var_pool = ["p", "q", "r", "s", "u", "w", "_a", "__v", "_", "a_b", "P", "q1"];
+    let fn_pool = ["fa", "fb", "size", "int", "t", "h2", "fc", "_f", "f_1"];
     let extra_fns = ["fa", "fb", "fc"];
     let mut id = 0;
     let mut emitted = 0;
